@@ -1,8 +1,227 @@
 import Req.Driver.Proto
-/-! Driver lanes of C15. -/
-namespace Req.Driver.L.C15
-open Req.Proto
+import Req.Client.Decode
+/-!
+Driver lanes of C15.
 
-def lanes : List (String × (List String → String)) := []
+Decoder ids: `none`, `latin1`, `w1252`, `u16le`, `u16be` (Lean decoders), `tbl` (table decoder over
+the `<tbl>` argument: `in=out;in=out…`, hex, sent by the harness from x/text).
+
+* `c15read <disable> <filter> <ae> <ct> <mp> <lk> <pre> <tbl> <segs> <term> <lwt> <bufs> <tail>`
+  — `autoDecodeResponseBody` + reads, patched model.  `filter` = `default|all|list:<hexlist>|custom:<0|1>`,
+  `mp` = `err|nocs|cs:<hex>`, `lk` = decoder id the header charset resolves to, `pre` = prescan
+  table `content=decid/name;…` (`-` = empty), `segs`/`term`/`lwt` = the scripted source, `bufs` =
+  caller buffer sizes of the first reads, then `tail`-sized buffers until the stream ends.
+  Answer: `<hex of everything returned> <eof|err|panic|none> <raw|hdr|auto:<detected><hasDecoder><peek>>`.
+* `c15legacy …same… <dirty>` — the pinned tree's `peekRead`; buffers are pre-filled with the
+  `dirty` pattern repeated.
+* `c15drain <peek|nil> <decid> <tbl> <segs> <term> <lwt> <bufs> <tail>` — `Read` from a state
+  with `detected = true`, the given `peek` and decoder.
+* `c15dec <decid> <tbl> <chunks>` — `<decodeAll (flatten chunks)> <feed chunks ++ flush>`.
+* `c15find <content> <pre entry decid/name | none> <tbl>` — `FindEncoding`; answer `none` or the
+  found decoder applied to `content`.
+-/
+namespace Req.Driver.L.C15
+open Req.Proto Req.Decode
+
+abbrev D := Decoder Bytes
+
+def parsePairs (s : String) : Option (List (Bytes × Bytes)) :=
+  if s == "-" then some [] else
+  (s.splitOn ";").mapM fun e =>
+    match e.splitOn "=" with
+    | [a, b] => do
+      let x ← decodeHex a
+      let y ← decodeHex b
+      pure (x, y)
+    | _ => none
+
+/-- decoder id → `some none` (no decoder) / `some (some d)`; `none` = malformed. -/
+def decOf (tbl : List (Bytes × Bytes)) (s : String) : Option (Option D) :=
+  if s == "none" then some none
+  else if s == "latin1" then some (some latin1)
+  else if s == "w1252" then some (some windows1252)
+  else if s == "u16le" then some (some (utf16 false))
+  else if s == "u16be" then some (some (utf16 true))
+  else if s == "tbl" then some (some (tableDecoder tbl))
+  else none
+
+/-- prescan table: `content=decid/namehex;…`; an entry with decid `none` means "nothing found". -/
+def parsePrescan (tbl : List (Bytes × Bytes)) (s : String) : Option (List (Bytes × Option (Enc Bytes))) :=
+  if s == "-" then some [] else
+  (s.splitOn ";").mapM fun e =>
+    match e.splitOn "=" with
+    | [c, v] =>
+      match v.splitOn "/" with
+      | [did, nm] => do
+        let content ← decodeHex c
+        let d ← decOf tbl did
+        let name ← decodeHex nm
+        pure (content, d.map fun dec => (⟨name, dec⟩ : Enc Bytes))
+      | _ => none
+    | _ => none
+
+def prescanOf (t : List (Bytes × Option (Enc Bytes))) (content : Bytes) : Option (Enc Bytes) :=
+  match t.lookup content with
+  | some r => r
+  | none => none
+
+/-- `htmlcharset.Lookup` on the three labels of the BOM table. -/
+def bomLookup (label : Bytes) : Option (Enc Bytes) :=
+  if label == ofStr "utf-16be" then some ⟨label, utf16 true⟩
+  else if label == ofStr "utf-16le" then some ⟨label, utf16 false⟩
+  else if label == ofStr "utf-8" then some ⟨label, latin1⟩   -- decoder never used (dropUtf8)
+  else none
+
+def parseFilter (s : String) : Option (Option (Bytes → Bool)) :=
+  if s == "default" then some none
+  else if s == "all" then some (some fun _ => true)
+  else if s == "custom:0" then some (some fun _ => false)
+  else if s == "custom:1" then some (some fun _ => true)
+  else if s.startsWith "list:" then
+    match decodeList (s.drop 5).toString with
+    | some l => some (some (contentTypeFunc l))
+    | none => none
+  else none
+
+def parseMp (s : String) : Option MediaParse :=
+  if s == "err" then some .err
+  else if s == "nocs" then some .noCharset
+  else if s.startsWith "cs:" then (decodeHex (s.drop 3).toString).map .charset
+  else none
+
+def parseTerm (s : String) : Option Term :=
+  if s == "eof" then some .eof else if s == "err" then some .err else none
+
+def parseBool (s : String) : Option Bool :=
+  if s == "1" then some true else if s == "0" then some false else none
+
+def showTerm : Option Term → String
+  | none => "none"
+  | some .eof => "eof"
+  | some .err => "err"
+  | some .panic => "panic"
+
+def b01 (b : Bool) : String := if b then "1" else "0"
+
+def showKind : Body Bytes → String
+  | .raw _ => "raw"
+  | .hdr _ _ => "hdr"
+  | .auto a => "auto:" ++ b01 a.detected ++ b01 a.decodeReader.isSome ++ b01 a.peek.isSome
+
+def showRR (r : RR (Body Bytes)) : String :=
+  encodeHex r.out ++ " " ++ showTerm r.term ++ " " ++ showKind r.st
+
+/-- Enough `tail`-sized reads to finish any stream (each read hands out a byte, consumes a
+byte/segment, or reports the end). -/
+def fuelFor (segs : List Bytes) (tbl : List (Bytes × Bytes)) : Nat :=
+  5 * segs.flatten.length + 3 * segs.length + (tbl.map fun p => p.2.length).sum + 16
+
+def cyc (pat : Bytes) (n : Nat) : Bytes :=
+  if pat.isEmpty then List.replicate n 0
+  else (List.range n).map fun i => pat[i % pat.length]!
+
+structure ReadArgs where
+  cfg : Config
+  ae : Bytes
+  ct : Bytes
+  mp : MediaParse
+  lk : Option D
+  find : Bytes → Option D
+  src : Src
+  bufs : List Nat
+  tail : Nat
+  fuel : Nat
+
+def parseReadArgs : List String → Option ReadArgs
+  | [dis, flt, ae, ct, mp, lk, pre, tbl, segs, term, lwt, bufs, tail] => do
+    let dis ← parseBool dis
+    let flt ← parseFilter flt
+    let ae ← decodeHex ae
+    let ct ← decodeHex ct
+    let mp ← parseMp mp
+    let tbl ← parsePairs tbl
+    let lk ← decOf tbl lk
+    let pre ← parsePrescan tbl pre
+    let segs ← decodeList segs
+    let term ← parseTerm term
+    let lwt ← parseBool lwt
+    let bufs ← decodeNatList bufs
+    let tail ← tail.toNat?
+    pure { cfg := ⟨dis, flt⟩, ae := ae, ct := ct, mp := mp, lk := lk,
+           find := findEncoding bomLookup (prescanOf pre),
+           src := ⟨segs, term, lwt⟩,
+           bufs := bufs, tail := tail, fuel := fuelFor segs tbl }
+  | _ => none
+
+def laneRead (args : List String) : String :=
+  match parseReadArgs args with
+  | some a =>
+    showRR (respReads a.cfg a.ae a.ct a.mp (fun _ => a.lk) a.find a.src
+      (a.bufs ++ List.replicate a.fuel a.tail))
+  | none => "bad-op"
+
+/-- Legacy buffers carry content: the explicit buffers and the next four `tail` buffers are
+pre-filled with the dirty pattern (only the first data-carrying read looks at the content;
+the harness keeps that read within this range), the rest are zero-filled. -/
+def laneLegacy (args : List String) : String :=
+  match args.reverse with
+  | dirty :: rest =>
+    match parseReadArgs rest.reverse, decodeHex dirty with
+    | some a, some pat =>
+      let body := wrapBody (select a.cfg a.ae a.ct a.mp (fun _ => a.lk)) a.src
+      let bufs := (a.bufs ++ List.replicate 4 a.tail).map (cyc pat)
+        ++ List.replicate a.fuel (List.replicate a.tail 0)
+      showRR (reads (Body.readLegacy a.find) body bufs)
+    | _, _ => "bad-op"
+  | [] => "bad-op"
+
+def laneDrain : List String → String
+  | [peek, did, tbl, segs, term, lwt, bufs, tail] =>
+    let r : Option String := do
+      let pk ← if peek == "nil" then some none else (decodeHex peek).map some
+      let tbl ← parsePairs tbl
+      let d ← decOf tbl did
+      let segs ← decodeList segs
+      let term ← parseTerm term
+      let lwt ← parseBool lwt
+      let bufs ← decodeNatList bufs
+      let tail ← tail.toNat?
+      let a : State Bytes := ⟨⟨segs, term, lwt⟩, true, d.map fun d => ⟨d, d.init, [], [], none⟩, pk⟩
+      let all := bufs ++ List.replicate (fuelFor segs tbl + (pk.map List.length).getD 0) tail
+      pure (showRR (reads (Body.read fun _ => none) (.auto a) all))
+    r.getD "bad-op"
+  | _ => "bad-op"
+
+def laneDec : List String → String
+  | [did, tbl, chunks] =>
+    let r : Option String := do
+      let tbl ← parsePairs tbl
+      let d ← decOf tbl did
+      let d ← d
+      let chunks ← decodeList chunks
+      let f := d.feedAll d.init chunks
+      pure (encodeHex (d.decodeAll chunks.flatten) ++ " " ++ encodeHex (f.2 ++ d.flush f.1))
+    r.getD "bad-op"
+  | _ => "bad-op"
+
+def laneFind : List String → String
+  | [content, pre, tbl] =>
+    let r : Option String := do
+      let content ← decodeHex content
+      let tbl ← parsePairs tbl
+      let pre ← if pre == "none" then some [] else parsePrescan tbl (encodeHex content ++ "=" ++ pre)
+      match findEncoding bomLookup (prescanOf pre) content with
+      | none => pure "none"
+      | some d => pure (encodeHex (d.decodeAll content))
+    r.getD "bad-op"
+  | _ => "bad-op"
+
+def lanes : List (String × (List String → String)) := [
+  ("c15read", laneRead),
+  ("c15legacy", laneLegacy),
+  ("c15drain", laneDrain),
+  ("c15dec", laneDec),
+  ("c15find", laneFind)
+]
 
 end Req.Driver.L.C15
